@@ -10,7 +10,7 @@ from vf.xmodel import Schema, Rop, build_api, build_loader
 
 SHARDS = {'quick': 16, 'thorough': 32}
 TIMEOUT = {'quick': 900, 'thorough': 5400}
-MUST_HIT = ['Generator.user-source-sequence', 'Generator.swapped', 'ArgModel.creation', 'IdFresh.defaulted-id', 'IdFresh.generator-next', 'Generator.peek',
+MUST_HIT = ['IdFresh.instance-attribute', 'Generator.user-source-sequence', 'Generator.swapped', 'ArgModel.creation', 'IdFresh.defaulted-id', 'IdFresh.generator-next', 'Generator.peek',
             'Generator.integer-sequence', 'UnknownType.rejected', 'Referential.argument']
 MUST_REACH = ['xtuml/meta.py:MetaClass.default_value', 'xtuml/meta.py:MetaClass.new',
               'xtuml/tools.py:IdGenerator.peek', 'xtuml/tools.py:IdGenerator.next',
@@ -109,6 +109,7 @@ def run_case(ctx, rng, n_case):
     route = rng.choice(('api', 'loader'))
     m = build_api(sch, gen) if route == 'api' else build_loader(sch, gen)
     defaulted = []    # ids handed out as defaults, in order
+    instance_ids = set()    # defaulted ids as read from the created instances
 
     for mc in m.metaclasses.values():
         orig = mc.default_value
@@ -205,10 +206,18 @@ def run_case(ctx, rng, n_case):
                     raise Mismatch('args/value', '%s(%r, %r): %s reads %r, expected %r'
                                    % (kind, args, kwargs, a, got, model[a]))
             else:
-                # defaulted unique id
+                # defaulted unique id: from the generator, not null, and never seen before in this
+                # metamodel - neither in an earlier instance nor in another attribute of this one
                 if got not in new_ids:
                     raise Mismatch('id/not-from-generator', '%s.%s = %r not among the ids generated by '
                                    'this creation %r' % (kind, a, got, new_ids))
+                ctx.hit('IdFresh.instance-attribute')
+                if not got:
+                    raise Mismatch('id/null', '%s.%s defaulted to the null id %r' % (kind, a, got))
+                if got in instance_ids:
+                    raise Mismatch('id/repeated', '%s.%s defaulted to %r, an id this metamodel already handed out '
+                                   '(attributes of the new instance: %r)' % (kind, a, got, attrs))
+                instance_ids.add(got)
         if gkind == 'integer':
             ctx.hit('Generator.integer-sequence')
             if log != list(range(1, len(log) + 1)):
